@@ -6,6 +6,7 @@ import (
 	"math/rand/v2"
 	"sort"
 	"strings"
+	"sync"
 	"sync/atomic"
 	"testing"
 	"time"
@@ -67,162 +68,180 @@ func TestVerif_C08(t *testing.T) {
 		w := newMWorld()
 		w.cntRule = func(int, string, int) uint64 { return 0 }
 		h := mocrelay.NewMergeHandler(mkChildren(w, nch)...)
-		cl := newMClient(ctx, h)
-		defer func() { cl.s.Stop(); <-cl.rdDone }()
-		var gens []*mGen
-		free := map[string]bool{"a": true, "b": true, "c": true}
-		nreq := 1 + r.IntN(6)
-		evn := 0
-		fail := func(sig, why string, g *mGen) {
-			wit := map[string]any{"children": nch, "client_received": describeRecv(cl.snapshot())}
-			if g != nil {
-				g.mu.Lock()
-				wit["generation"] = map[string]any{"sub": g.sub, "filters": g.filters, "req_call": g.reqCall, "close_call": g.closeCall, "child_emissions": describeEmits(g.emits), "close_received_by_child_at": g.closeRecv}
-				g.mu.Unlock()
-			}
-			rep.Violation(sig, why, wit)
-		}
-		for q := 0; q < nreq; q++ {
-			// pick a free sub id (never re-issued before its EOSE; a generation closed
-			// without EOSE retires its id)
-			var sub string
-			for s := range free {
-				if free[s] && (sub == "" || s < sub) {
-					sub = s
+		// several clients may share one merged handler and the same subscription ids: the
+		// bookkeeping of one connection must not leak into another
+		session := func(r *rand.Rand, sidx int) {
+			cl := newMClient(ctx, h)
+			defer func() { cl.s.Stop(); <-cl.rdDone }()
+			var gens []*mGen
+			free := map[string]bool{"a": true, "b": true, "c": true}
+			nreq := 1 + r.IntN(6)
+			evn := 0
+			fail := func(sig, why string, g *mGen) {
+				wit := map[string]any{"children": nch, "client_received": describeRecv(cl.snapshot())}
+				if g != nil {
+					g.mu.Lock()
+					wit["generation"] = map[string]any{"sub": g.sub, "filters": g.filters, "req_call": g.reqCall, "close_call": g.closeCall, "child_emissions": describeEmits(g.emits), "close_received_by_child_at": g.closeRecv}
+					g.mu.Unlock()
 				}
+				rep.Violation(sig, why, wit)
 			}
-			if sub == "" || r.IntN(4) == 0 {
-				sub = fmt.Sprintf("s%d", q)
-			}
-			free[sub] = false
-			g := &mGen{sub: sub, filters: c08Filters(r), plans: make([]mPlan, nch), closeRecv: make([]int64, nch), closed: make([]atomic.Bool, nch)}
-			// shared pool of stored events for this generation
-			pool := make([]*mocrelay.Event, 2+r.IntN(6))
-			for k := range pool {
-				evn++
-				pool[k] = c08Event(r, fmt.Sprintf("stored-%d-%d", i, evn))
-			}
-			for c := 0; c < nch; c++ {
-				p := mPlan{delaySeed: r.Uint64(), ignoreClos: r.IntN(2) == 0}
-				ns := r.IntN(6)
-				for k := 0; k < ns; k++ {
-					p.stored = append(p.stored, vk.Pick(r, pool))
+			for q := 0; q < nreq; q++ {
+				// pick a free sub id (never re-issued before its EOSE; a generation closed
+				// without EOSE retires its id)
+				var sub string
+				for s := range free {
+					if free[s] && (sub == "" || s < sub) {
+						sub = s
+					}
 				}
-				if r.IntN(3) != 0 { // well-behaved child: newest first, no duplicates
-					sort.SliceStable(p.stored, func(a, b int) bool { return p.stored[a].CreatedAt > p.stored[b].CreatedAt })
+				if sub == "" || r.IntN(4) == 0 {
+					sub = fmt.Sprintf("s%d", q)
 				}
-				nl := r.IntN(5)
-				for k := 0; k < nl; k++ {
+				free[sub] = false
+				g := &mGen{sub: sub, filters: c08Filters(r), plans: make([]mPlan, nch), closeRecv: make([]int64, nch), closed: make([]atomic.Bool, nch)}
+				// shared pool of stored events for this generation
+				pool := make([]*mocrelay.Event, 2+r.IntN(6))
+				for k := range pool {
 					evn++
-					p.live = append(p.live, c08Event(r, fmt.Sprintf("live-%d-c%d-%d", i, c, evn)))
+					pool[k] = c08Event(r, fmt.Sprintf("stored-%d-%d", i, evn))
 				}
-				g.plans[c] = p
-			}
-			g.left.Store(int32(nch))
-			req := &mocrelay.ClientReqMsg{SubscriptionID: sub, ReqFilters: g.filters}
-			w.mu.Lock()
-			w.gens[req] = g
-			w.bySub[sub] = append(w.bySub[sub], g)
-			w.mu.Unlock()
-			gens = append(gens, g)
-			g.reqCall = vk.Tick()
-			if !cl.s.Put(req) {
-				fail("session/stalled", "the merged handler did not take a REQ", g)
-				return
-			}
-			closeMode := r.IntN(10) // 0,1: close early; 2: close after EOSE; else no close
-			if closeMode < 2 {
-				for k := r.IntN(40); k > 0; k-- {
-					time.Sleep(time.Duration(r.IntN(60)) * time.Microsecond)
-				}
-				g.closeCall = vk.Tick()
-				cl.s.Put(&mocrelay.ClientCloseMsg{SubscriptionID: sub})
-			}
-			// wait until the children are through with this generation
-			deadline := time.Now().Add(vk.WaitBound)
-			for g.left.Load() > 0 && time.Now().Before(deadline) {
-				time.Sleep(100 * time.Microsecond)
-			}
-			if g.left.Load() > 0 {
-				// a violation only with a witness: a child goroutine parked in its channel send
-				blocked := ""
-				for _, gr := range vk.Goroutines() {
-					if strings.Contains(gr.Stack, "mChild).emit") {
-						blocked = gr.Stack
+				for c := 0; c < nch; c++ {
+					p := mPlan{delaySeed: r.Uint64(), ignoreClos: r.IntN(2) == 0}
+					ns := r.IntN(6)
+					for k := 0; k < ns; k++ {
+						p.stored = append(p.stored, vk.Pick(r, pool))
 					}
-				}
-				if blocked != "" {
-					fail("session/child-blocked", "a child could not hand its output to the merged handler within the bound (client is reading): "+blocked, g)
-				} else {
-					rep.Inconclusive("C08: scripted children did not finish their scripts within the bound, none is blocked in a send")
-				}
-				return
-			}
-			if !cl.barrier(fmt.Sprintf("barrier-%d", q)) {
-				fail("session/stalled", "barrier COUNT not answered", g)
-				return
-			}
-			if closeMode == 2 {
-				g.closeCall = vk.Tick()
-				cl.s.Put(&mocrelay.ClientCloseMsg{SubscriptionID: sub})
-				cl.barrier(fmt.Sprintf("barrier2-%d", q))
-			}
-			// judge this generation now (receipts since reqCall for this sub id)
-			var mine []rRecv
-			for _, x := range cl.snapshot() {
-				if x.at < g.reqCall {
-					continue
-				}
-				switch m := x.msg.(type) {
-				case *mocrelay.ServerEventMsg:
-					if m.SubscriptionID == sub {
-						mine = append(mine, x)
+					if r.IntN(3) != 0 { // well-behaved child: newest first, no duplicates
+						sort.SliceStable(p.stored, func(a, b int) bool { return p.stored[a].CreatedAt > p.stored[b].CreatedAt })
 					}
-				case *mocrelay.ServerEOSEMsg:
-					if m.SubscriptionID == sub {
-						mine = append(mine, x)
+					nl := r.IntN(5)
+					for k := 0; k < nl; k++ {
+						evn++
+						p.live = append(p.live, c08Event(r, fmt.Sprintf("live-%d-c%d-%d", i, c, evn)))
 					}
+					g.plans[c] = p
 				}
-			}
-			rep.Eval(1)
-			sig, cls := c08Judge(rep, g, mine, nch, fail)
-			if sig != "" {
-				return
-			}
-			withEvents := 0
-			for _, p := range g.plans {
-				if len(p.stored)+len(p.live) > 0 {
-					withEvents++
+				g.left.Store(int32(nch))
+				req := &mocrelay.ClientReqMsg{SubscriptionID: sub, ReqFilters: g.filters}
+				w.mu.Lock()
+				w.gens[req] = g
+				w.bySub[sub] = append(w.bySub[sub], g)
+				w.mu.Unlock()
+				gens = append(gens, g)
+				g.reqCall = vk.Tick()
+				if !cl.s.Put(req) {
+					fail("session/stalled", "the merged handler did not take a REQ", g)
+					return
 				}
-			}
-			if withEvents >= 2 {
-				// the interleaving of child emissions as the client side saw it
-				g.mu.Lock()
-				es := append([]mEmit{}, g.emits...)
-				g.mu.Unlock()
-				sort.SliceStable(es, func(a, b int) bool { return es[a].call < es[b].call })
-				key := fmt.Sprintf("%d/%s/", nch, cls)
-				for _, e := range es {
-					if _, is := e.msg.(*mocrelay.ServerEOSEMsg); is {
-						key += fmt.Sprintf("E%d", e.child)
+				closeMode := r.IntN(10) // 0,1: close early; 2: close after EOSE; else no close
+				if closeMode < 2 {
+					for k := r.IntN(40); k > 0; k-- {
+						time.Sleep(time.Duration(r.IntN(60)) * time.Microsecond)
+					}
+					g.closeCall = vk.Tick()
+					cl.s.Put(&mocrelay.ClientCloseMsg{SubscriptionID: sub})
+				}
+				// wait until the children are through with this generation
+				deadline := time.Now().Add(vk.WaitBound)
+				for g.left.Load() > 0 && time.Now().Before(deadline) {
+					time.Sleep(100 * time.Microsecond)
+				}
+				if g.left.Load() > 0 {
+					// a violation only with a witness: a child goroutine parked in its channel send
+					blocked := ""
+					for _, gr := range vk.Goroutines() {
+						if strings.Contains(gr.Stack, "mChild).emit") {
+							blocked = gr.Stack
+						}
+					}
+					if blocked != "" {
+						fail("session/child-blocked", "a child could not hand its output to the merged handler within the bound (client is reading): "+blocked, g)
 					} else {
-						key += fmt.Sprintf("e%d", e.child)
+						rep.Inconclusive("C08: scripted children did not finish their scripts within the bound, none is blocked in a send")
+					}
+					return
+				}
+				if !cl.barrier(fmt.Sprintf("barrier-%d", q)) {
+					fail("session/stalled", "barrier COUNT not answered", g)
+					return
+				}
+				if closeMode == 2 {
+					g.closeCall = vk.Tick()
+					cl.s.Put(&mocrelay.ClientCloseMsg{SubscriptionID: sub})
+					cl.barrier(fmt.Sprintf("barrier2-%d", q))
+				}
+				// judge this generation now (receipts since reqCall for this sub id)
+				var mine []rRecv
+				for _, x := range cl.snapshot() {
+					if x.at < g.reqCall {
+						continue
+					}
+					switch m := x.msg.(type) {
+					case *mocrelay.ServerEventMsg:
+						if m.SubscriptionID == sub {
+							mine = append(mine, x)
+						}
+					case *mocrelay.ServerEOSEMsg:
+						if m.SubscriptionID == sub {
+							mine = append(mine, x)
+						}
 					}
 				}
-				rep.Nontrivial(key)
-			}
-			rep.Seen("generation_classes", fmt.Sprintf("%d/%s", nch, cls))
-			// the id may be reused only if its EOSE was received
-			for _, x := range mine {
-				if _, is := x.msg.(*mocrelay.ServerEOSEMsg); is {
-					free[sub] = true
+				rep.Eval(1)
+				sig, cls := c08Judge(rep, g, mine, nch, fail)
+				if sig != "" {
+					return
+				}
+				withEvents := 0
+				for _, p := range g.plans {
+					if len(p.stored)+len(p.live) > 0 {
+						withEvents++
+					}
+				}
+				if withEvents >= 2 {
+					// the interleaving of child emissions as the client side saw it
+					g.mu.Lock()
+					es := append([]mEmit{}, g.emits...)
+					g.mu.Unlock()
+					sort.SliceStable(es, func(a, b int) bool { return es[a].call < es[b].call })
+					key := fmt.Sprintf("%d/%s/", nch, cls)
+					for _, e := range es {
+						if _, is := e.msg.(*mocrelay.ServerEOSEMsg); is {
+							key += fmt.Sprintf("E%d", e.child)
+						} else {
+							key += fmt.Sprintf("e%d", e.child)
+						}
+					}
+					rep.Nontrivial(key)
+				}
+				rep.Seen("generation_classes", fmt.Sprintf("%d/%s", nch, cls))
+				// the id may be reused only if its EOSE was received
+				for _, x := range mine {
+					if _, is := x.msg.(*mocrelay.ServerEOSEMsg); is {
+						free[sub] = true
+					}
+				}
+				if q == 0 && rep.WantSample() {
+					g.mu.Lock()
+					rep.Sample(map[string]any{"children": nch, "filters": vk.JSON(g.filters), "child_emissions": describeEmits(g.emits), "client_received": describeRecv(mine)})
+					g.mu.Unlock()
 				}
 			}
-			if q == 0 && rep.WantSample() {
-				g.mu.Lock()
-				rep.Sample(map[string]any{"children": nch, "filters": vk.JSON(g.filters), "child_emissions": describeEmits(g.emits), "client_received": describeRecv(mine)})
-				g.mu.Unlock()
+		}
+		if i%4 == 0 {
+			var swg sync.WaitGroup
+			for k, nk := 0, 2+r.IntN(2); k < nk; k++ {
+				swg.Add(1)
+				go func(k int) {
+					defer swg.Done()
+					session(vk.RNG("C08/concurrent", i*8+k), k)
+				}(k)
 			}
+			swg.Wait()
+			rep.Count("handlers_shared_by_concurrent_sessions", 1)
+		} else {
+			session(r, 0)
 		}
 		rep.Count("sessions", 1)
 		rep.Count(fmt.Sprintf("sessions_with_%d_children", nch), 1)
